@@ -504,7 +504,7 @@ class DatasetWorld(object):
             n = rng.choice(free)
             return {"op": "append_axis", "name": n,
                     "labels": V.gen_labels(rng, rng.randint(self.cfg["min_len"], self.cfg["max_len"]), self.cfg["dim_kind"].get(n))}
-        return {"op": "meta", "name": rng.choice(["title", "source"]), "value": rng.choice(["t1", 3, [1, 2]])}
+        return {"op": "meta", "name": rng.choice(["title", "source", "_hidden", "title"]), "value": rng.choice(["t1", 3, [1, 2]])}
 
     # -- rejection templates ---------------------------------------------------------------
     MISMATCH = ["one_label", "order", "length", "kind"]
@@ -552,7 +552,10 @@ class DatasetWorld(object):
             i = rng.randrange(len(bad))
             if not isinstance(base[0], str) and rng.random() < 0.3:
                 # a label that differs only a little still disagrees
-                bad[i] = float(bad[i]) + rng.choice([1e-7, -1e-7, 1e-3]) * max(1.0, abs(float(bad[i])))
+                if rng.random() < 0.4:
+                    bad[i] = float(np.nextafter(float(bad[i]), float(bad[i]) + 1.0))     # the very next double
+                else:
+                    bad[i] = float(bad[i]) + rng.choice([1e-7, -1e-7, 1e-3]) * max(1.0, abs(float(bad[i])))
                 self.count("c13:reject_near_label")
             else:
                 bad[i] = alt[0]
@@ -613,8 +616,10 @@ class DatasetWorld(object):
             if what == "take":
                 if not labs:
                     return None
-                st["form"] = rng.choice(["axis", "dict", "dict2", "keepdims", "tuple"])
+                st["form"] = rng.choice(["axis", "dict", "dict2", "keepdims", "tuple", "keepdims_pos", "axis_pos"])
                 st["idx"] = gen_label_index(rng, labs, allow_absent=False)
+                if st["form"].endswith("_pos"):
+                    st["idx"] = gen_pos_index(rng, len(labs))
                 if st["form"] == "dict2" and len(dims) > 1:
                     d2 = rng.choice([x for x in dims if x != d])
                     if m.dims[d2]["labels"]:
@@ -651,6 +656,9 @@ class DatasetWorld(object):
             elif what == "reindex_axis":
                 from dsim.worlds.array_ops import _gen_new_labels
                 st["values"] = _gen_new_labels(rng, labs)
+                if st["values"] and isinstance(st["values"][0], float) and rng.random() < 0.2:
+                    i_ = rng.randrange(len(st["values"]))
+                    st["values"][i_] = float(np.nextafter(st["values"][i_], st["values"][i_] + 1.0))   # next to a label is not the label
                 r = rng.random()
                 if r < 0.2:
                     st["fill_value"] = rng.choice([-99, 0, 0.0])
@@ -665,6 +673,8 @@ class DatasetWorld(object):
                 st["shift"] = rng.choice([100, 200])
                 st["align"] = rng.random() < 0.4
                 st["secondary_differs"] = rng.random() < 0.5
+                st["n"] = rng.randint(2, 3)
+                st["which_differs"] = rng.randint(1, 2)
         elif what == "reindex_like":
             used = [d for d in dims if any(d in v["dims"] for v in m.vars.values())]
             if not used:
@@ -684,6 +694,7 @@ class DatasetWorld(object):
             st["align"] = rng.random() < 0.4
             st["perturb"] = rng.random() < 0.5
             st["secondary_differs"] = rng.random() < 0.4
+            st["which_differs"] = rng.randint(1, 2)
         elif what == "neg":
             st["sign"] = rng.choice(["neg", "pos"])
         elif what == "ds_op_ds":
@@ -1278,7 +1289,10 @@ class DatasetWorld(object):
         return "ok"
 
     def x_meta(self, s):
-        setattr(self.ds, s["name"], V._deepcopy_json(s["value"]))
+        if s["name"].startswith("_"):
+            self.ds.attrs[s["name"]] = V._deepcopy_json(s["value"])    # any key is legal metadata when written through attrs
+        else:
+            setattr(self.ds, s["name"], V._deepcopy_json(s["value"]))
         self.model.attrs[s["name"]] = V._deepcopy_json(s["value"])
         return "ok"
 
@@ -1340,6 +1354,14 @@ class DatasetWorld(object):
             got = py_labels(ds.axes[d].values)
             if not _labels_same(got, m.dims[d]["labels"]):
                 raise Violation(prop, "ds_visible", "%s: ds.axes[%r] labels %r, model %r" % (when, d, got, m.dims[d]["labels"]))
+            if d not in keys:
+                # ds[<dimension>] hands out the axis as an array: the dataset's view of its own labels
+                try:
+                    view = py_labels(ds[d].values)
+                except Exception:
+                    view = None
+                if view is not None and not _labels_same(view, m.dims[d]["labels"]):
+                    raise Violation(prop, "ds_visible", "%s: ds[%r] shows labels %r, model %r" % (when, d, view, m.dims[d]["labels"]))
         for k in keys:
             v = dict.__getitem__(ds, k)
             mv = m.vars[k]
